@@ -2,6 +2,7 @@ package hpipe
 
 import (
 	"bytes"
+	"io"
 	"context"
 	"encoding/base64"
 	"fmt"
@@ -143,7 +144,9 @@ type Reply struct {
 var clientAddr = netip.MustParseAddr("198.51.100.7")
 
 // Arrivals in enumeration order.
-var Arrivals = []string{"udp", "tcp", "doh-get", "doh-post"}
+// "doh-post-chunked": a POST whose body length is not announced (HTTP/1.1 chunked
+// transfer, HTTP/2 without content-length): req.ContentLength is -1.
+var Arrivals = []string{"udp", "tcp", "doh-get", "doh-post", "doh-post-chunked"}
 
 type fakeListener struct {
 	conns  []net.Conn
@@ -211,11 +214,16 @@ func (e *Env) Arrive(kind string, wire []byte) Reply {
 			r.Extra = len(msgs) - 1
 		}
 		return r
-	case "doh-get", "doh-post":
+	case "doh-get", "doh-post", "doh-post-chunked":
 		var rec = httptest.NewRecorder()
 		if kind == "doh-get" {
 			req := httptest.NewRequest("GET", "/dns-query?dns="+base64.RawURLEncoding.EncodeToString(wire), nil)
 			req.Header.Set("Accept", "application/dns-message")
+			req.RemoteAddr = "198.51.100.7:4242"
+			e.HTTP.ServeHTTP(rec, req)
+		} else if kind == "doh-post-chunked" {
+			req := httptest.NewRequest("POST", "/dns-query", struct{ io.Reader }{bytes.NewReader(wire)})
+			req.Header.Set("Content-Type", "application/dns-message")
 			req.RemoteAddr = "198.51.100.7:4242"
 			e.HTTP.ServeHTTP(rec, req)
 		} else {
